@@ -3,7 +3,7 @@ rc_target("c19_datetime", flavour="asan")
 # parse result the property talks about is UTC-based and must not depend on the process time zone
 rc_target("c19_datetime_tz_east", flavour="asan", src="harness/c19_datetime.cpp", env={"TZ": "IST-5:30"})
 rc_target("c19_datetime_tz_west", flavour="asan", src="harness/c19_datetime.cpp", env={"TZ": "EST5EDT,M3.2.0,M11.1.0"})
-plan("C19", [T("c19_datetime", 80000, 700000), T("c19_datetime_tz_east", 25000, 150000, 2, 6), T("c19_datetime_tz_west", 25000, 150000, 2, 6)], min_nt=45000,
+plan("C19", [T("c19_datetime", 80000, 700000), TT(GCC("c19_datetime"), 20000), T("c19_datetime_tz_east", 25000, 150000, 2, 6), T("c19_datetime_tz_west", 25000, 150000, 2, 6)], min_nt=45000,
      rule="instants and harness-rendered date strings against an independent proleptic-Gregorian reference",
      technique="property-based testing (rapidcheck) against a reference calendar written in the harness (days-from-civil / civil-from-days, "
                "cross-checked at start-up against a day-by-day walk over 1970..9999): format/parse round trips, reference rendering, "
